@@ -43,13 +43,6 @@ def removeOp (i : Nat) : PolyOp :=
     (fun xs _ => (xs.take i ++ xs.drop (i+1), (xs.drop i).take 1))
     (by intros; simp [List.map_take, List.map_drop])
 
-/-- `Vec::swap_remove(i)`: the last value takes the place of the removed one. -/
-def swapRemoveOp (i : Nat) : PolyOp :=
-  .ofTotal (fun n k => decide (i < n) && k == 0)
-    (fun xs _ => ((xs.take i ++ (xs.drop (xs.length - 1)) ++ (xs.drop (i+1))).take (xs.length - 1),
-                  (xs.drop i).take 1))
-    (by intros; simp [List.map_take, List.map_drop])
-
 /-- `Vec::pop().unwrap()`: panics iff empty. -/
 def popOp : PolyOp :=
   .ofTotal (fun n k => decide (0 < n) && k == 0)
@@ -101,6 +94,13 @@ theorem swapList_perm {α : Type} (xs : List α) (a b : Nat) : (swapList xs a b)
       simp only
       rw [← e1, ← e2]
       exact List.set_set_perm h1 h2
+
+/-- `Vec::swap_remove(i)`: swap with the last value, then pop it. -/
+def swapRemoveOp (i : Nat) : PolyOp :=
+  .ofTotal (fun n k => decide (i < n) && k == 0)
+    (fun xs _ => ((swapList xs i (xs.length - 1)).take (xs.length - 1),
+                  (swapList xs i (xs.length - 1)).drop (xs.length - 1)))
+    (by intros; simp [List.map_take, List.map_drop, map_swapList])
 
 /-- `slice::swap(a, b)`: panics iff an index is out of range. -/
 def swapOp (a b : Nat) : PolyOp :=
